@@ -14,7 +14,7 @@
    below), the geometric correctness of ray casting (holes_assigned) and the composition
    build_polygon_recovers. *)
 From Coq Require Import ZArith List Bool Permutation Lia.
-From Verif Require Import Geo.Model Geo.JoinProofs Geo.Conserve Geo.Closes Geo.Cut Geo.Orient Geo.Sources Geo.Holes Geo.Annotate C16.Spec C16.RayQ.
+From Verif Require Import Geo.Model Geo.JoinProofs Geo.Conserve Geo.Closes Geo.Cut Geo.Orient Geo.Sources Geo.Holes Geo.Annotate Geo.Edges C16.Spec C16.RayQ.
 Import ListNotations.
 Open Scope Z_scope.
 
@@ -49,6 +49,14 @@ Theorem C16_chain_line : forall obs cur, chain_rel obs cur ->
   ms_line cur = merge_lines (map (fun ob => seg_line (orient ob)) obs).
 Proof. exact chain_rel_line. Qed.
 Print Assumptions C16_chain_line.
+
+(* 2e. the undirected edges of all chain lines are, as a multiset, exactly the edges of the input
+       segments with >= 2 points (exported to C17 through Geo/Api.v) *)
+Theorem C16_join_conserves_edges : forall segments chains, join segments = JoinOk chains ->
+  Permutation (map uedge (flat_map seg_edges (compact segments)))
+              (map uedge (flat_map (fun c => line_edges (ms_line c)) chains)).
+Proof. exact join_conserves_edges. Qed.
+Print Assumptions C16_join_conserves_edges.
 
 (* 2d. no chain and no line of a chain is empty: the Go code's First()/Last() never index an
        empty slice on the result, and the model's origin default is never used *)
